@@ -1,6 +1,12 @@
 use std::any::Any;
 
+/// Payload of the intentional panic used to stop a library loop that exceeded its call budget.
+pub struct Budget;
+
 pub fn panic_msg(p: &Box<dyn Any + Send>) -> String {
+    if p.downcast_ref::<Budget>().is_some() {
+        return "call budget exhausted".into();
+    }
     if let Some(s) = p.downcast_ref::<&str>() {
         s.to_string()
     } else if let Some(s) = p.downcast_ref::<String>() {
